@@ -206,7 +206,11 @@ fn gen_error(rng: &mut Rng) -> HttpError {
         },
         1 => HttpError::Json(gen_text(rng, 20, 10)),
         2 => HttpError::Url(gen_text(rng, 20, 10)),
-        3 => HttpError::Io(gen_text(rng, 20, 10)),
+        // messages a platform HTTP stack really produces: they mention time-outs, URLs, status words - the error must reach
+        // the app as the shell reported it whatever its text says
+        3 => if rng.coin(1, 3) { HttpError::Io(rng.pick(&["The request timed out.", "java.net.SocketTimeoutException: timeout", "Keep-Alive: timeout=5 was ignored",
+                 "SessionTimeout", "invalid url: relative URL without a base", "connection reset by peer", "404 Not Found", "TIMED OUT", ""]).to_string()) }
+             else { HttpError::Io(gen_text(rng, 20, 10)) },
         _ => HttpError::Timeout,
     }
 }
